@@ -27,6 +27,7 @@ type AssertSpec struct {
 	After  bool
 	Callee string
 	K      int
+	Text   string // anchor by source text of the call expression (every matching call site)
 }
 
 type FuncContract struct {
@@ -230,6 +231,19 @@ func parseContractFile(path, pkg string) (*ContractFile, error) {
 					}
 				}
 				r2 = strings.TrimSpace(r2[j+1:])
+			}
+			reT := regexp.MustCompile(`^(after|before)\s+"([^"]+)"\s*:\s*(.*)$`)
+			if mt := reT.FindStringSubmatch(r2); mt != nil {
+				e, err := parseExpr(mt[3])
+				if err != nil {
+					return nil, fail(err)
+				}
+				as := AssertSpec{Clause: Clause{Label: m[1], E: e, Src: mt[3], Uses: uses}, After: mt[1] == "after", Text: mt[2]}
+				if m[2] != "" {
+					as.Props = strings.Fields(strings.NewReplacer("{", "", "}", "", ",", " ").Replace(m[2]))
+				}
+				cur.Asserts = append(cur.Asserts, as)
+				continue
 			}
 			re := regexp.MustCompile(`^(after|before)\s+call\s+(\S+?)#(\d+)\s*:\s*(.*)$`)
 			mm := re.FindStringSubmatch(r2)
